@@ -97,7 +97,7 @@ def write_evidence(prop, tier, seed, total, n_viol, known_hits, level="explorati
         "findings_on_other_properties_seen": total["other_props"],
         "real_vs_stub": {
             "real": ["qce_circuit (working tree): structure, language, library constructors, visualization (matplotlib Agg), addon_stim (real stim), addon_openql factories", "PyYAML/json", "functools.lru_cache"],
-            "stub": ["file system under the library root (SimFS, in memory)", "OpenQL Program/Kernel/Platform (recording fake)", "uuid4", "tqdm output"],
+            "stub": ["file system under the library root (SimFS, in memory)", "OpenQL Program/Kernel/Platform (recording fake; the real OpenQL 0.12.2 compiler in the sampled worlds of the C15 thorough tier, see coverage.worlds)", "uuid4", "tqdm output"],
             "absent": ["threads", "clocks", "network"],
         },
         "known_findings_hit": known_hits,
@@ -148,6 +148,9 @@ def main(argv=None):
     profile = a.profile or prop
     print(f"qcosim check property={prop} tier={tier} VERIF_SEED={seed} jobs={a.jobs}", flush=True)
     total = runner.search(prop, profile, tier, seed, a.jobs, budget=a.budget)
+    if prop == "C15" and tier == "thorough":
+        runner.search_real_openql(prop, profile, seed, a.jobs, 1600, total)
+        total["wall"] += total.get("real_openql_wall", 0.0)
     rev, dirty = runner.library_rev()
     known = load_known()
     rc = 0
@@ -204,6 +207,7 @@ def main(argv=None):
                 n_viol += 1
                 print(f"VIOLATION property={prop} replay={path}")
                 print("  oracle=" + oracle + " steps=" + str(len(md["steps"])) + " detail=" + json.dumps(m["finding"]["detail"], default=str)[:600])
+                print("  boot=" + md["boot"] + " minimised_steps=" + json.dumps(md["steps"], default=str))
                 if rc == 0:
                     rc = 1
     # known findings diagnosed by the oracles during the search: one line per listed finding, with a minimised replay
